@@ -59,6 +59,8 @@ type Program struct {
 	NFuncs   int
 	// Normalised: this program is the helper-inlined normal form (positions refer to regenerated source)
 	Normalised bool
+	// Canonicalised: string-emptiness tests were rewritten to the len form before type checking (canon.go)
+	Canonicalised bool
 	Inlined    []string
 }
 
@@ -67,6 +69,20 @@ func Load(dir string, cfg Config) (*Program, error) { return LoadOverlay(dir, cf
 
 // LoadOverlay is Load with replacement contents for some files.
 func LoadOverlay(dir string, cfg Config, overlay map[string][]byte) (*Program, error) {
+	if os.Getenv("SPG_NOCANON") == "" {
+		if co := canonOverlay(dir, overlay); co != nil {
+			if p, err := loadOverlay(dir, cfg, co); err == nil {
+				p.Normalised = overlay != nil
+				p.Canonicalised = true
+				return p, nil
+			}
+			// the canonicalised text does not type-check: analyse the program as written
+		}
+	}
+	return loadOverlay(dir, cfg, overlay)
+}
+
+func loadOverlay(dir string, cfg Config, overlay map[string][]byte) (*Program, error) {
 	env := append(os.Environ(),
 		"GOFLAGS=-mod=mod", "GOPROXY=off", "GOSUMDB=off", "GOTOOLCHAIN=local", "GOWORK=off",
 		"CGO_ENABLED=0")
